@@ -453,7 +453,63 @@ pub fn codec_vectors(out: &mut dyn Write, tier: &str, seed: u64) -> J {
             }
         }
     }
+    n += new_slot_vectors(out);
     json!({"vectors": n, "native": cnt, "mismatch": bad, "calbad": calbad})
+}
+
+/// Entries the library creates (files, directories) in slots another system left behind - deleted entries and an end marker
+/// whose remaining 31 bytes are not clean: the 32 bytes on the medium afterwards, all of them.
+fn new_slot_vectors(out: &mut dyn Write) -> u64 {
+    use crate::dev::SparseDev;
+    use crate::fs::Clock;
+    use embedded_sdmmc::{Mode, VolumeIdx, VolumeManager};
+    let mut n = 0u64;
+    for fat32 in [false, true] {
+        for junk in [0xFFu8, 0x5A, 0x01] {
+            let del = format!("e5{}", format!("{:02x}", junk).repeat(31));
+            let end = format!("00{}", format!("{:02x}", junk).repeat(31));
+            let spec = json!({"vols": [{"fat32": fat32, "clusters": if fat32 { 65600 } else { 4100 }, "bpc": 1, "nfats": 2, "root_entries": 16, "lba": 8, "slot": 0,
+                "ptype": if fat32 { 12 } else { 6 }, "window": [2, 3, 4, 5, 6, 7, 8], "info_free": "unknown",
+                "root": [{"t": "raw", "hex": del}, {"t": "raw", "hex": del}, {"t": "raw", "hex": del}, {"t": "raw", "hex": end}]}]});
+            let mut vals = crate::vals::Vals::new(vec![0]);
+            let img = crate::mkfs::build(&spec, &mut vals);
+            let g = img.geos[0].clone();
+            let dev: SparseDev = img.dev.clone();
+            let rootblk = if fat32 { g.cluster_block(g.root_clus) } else { g.root_start };
+            let before = dev.0.borrow().get(rootblk);
+            let clock = Clock(std::rc::Rc::new(std::cell::Cell::new(123)));
+            let r = catch_unwind(AssertUnwindSafe(|| {
+                let vm: VolumeManager<SparseDev, Clock, 4, 4, 1> = VolumeManager::new_with_limits(dev.clone(), clock, 100);
+                let v = vm.open_raw_volume(VolumeIdx(0)).map_err(|_| ())?;
+                let d = vm.open_root_dir(v).map_err(|_| ())?;
+                let f = vm.open_file_in_dir(d, "NEW1.TXT", Mode::ReadWriteCreate).map_err(|_| ())?;
+                vm.close_file(f).map_err(|_| ())?;
+                vm.make_dir_in_dir(d, "NEWD").map_err(|_| ())?;
+                let f = vm.open_file_in_dir(d, "NEW2.TXT", Mode::ReadWriteCreateOrAppend).map_err(|_| ())?;
+                vm.close_file(f).map_err(|_| ())?;
+                let f = vm.open_file_in_dir(d, "NEW3.TXT", Mode::ReadWriteCreateOrTruncate).map_err(|_| ())?;
+                vm.close_file(f).map_err(|_| ())?;
+                vm.close_dir(d).map_err(|_| ())?;
+                vm.close_volume(v).map_err(|_| ())?;
+                Ok::<(), ()>(())
+            }));
+            let okrun = matches!(r, Ok(Ok(())));
+            let after = dev.0.borrow().get(rootblk);
+            for (name, kind) in [("NEW1    TXT", "file"), ("NEWD       ", "dir"), ("NEW2    TXT", "file"), ("NEW3    TXT", "file")] {
+                let nb = name.as_bytes();
+                let pos = (0..16).find(|i| &after[i * 32..i * 32 + 11] == nb);
+                let j = match pos {
+                    Some(i) => json!({"ev": "NewSlot", "fat32": fat32, "kind": kind, "found": true, "ran": okrun, "name": nb.to_vec(),
+                        "old": before[i * 32..i * 32 + 32].to_vec(), "new": after[i * 32..i * 32 + 32].to_vec()}),
+                    None => json!({"ev": "NewSlot", "fat32": fat32, "kind": kind, "found": false, "ran": okrun, "name": nb.to_vec(), "old": [], "new": []}),
+                };
+                serde_json::to_writer(&mut *out, &j).unwrap();
+                out.write_all(b"\n").unwrap();
+                n += 1;
+            }
+        }
+    }
+    n
 }
 
 // ------------------------------------------------------------------------------------------- C17
